@@ -168,3 +168,52 @@ pub fn twin_byte_step() {
         assert!(false, "TWIN.reachable");
     }
 }
+
+/// (d') wiring through encap_ext: same obligations as `sender_wiring` when the PDU carries
+/// header extensions (the calculator still sees the label AS WRITTEN, the whole PDU, the
+/// protocol type passed by the caller and total length 2 + written label + PDU).
+#[kani::proof]
+#[kani::unwind(10)]
+pub fn sender_wiring_ext() {
+    const NP: usize = 8;
+    const NB: usize = 32;
+    let pdu_arr: [u8; NP] = kani::any();
+    let mut buf_arr: [u8; NB] = kani::any();
+    let pdu_len = any_len(NP);
+    let buf_len = any_len(NB);
+    let label = any_label();
+    let ptype: u16 = kani::any();
+    let st = any_enc_state();
+    let ret: u32 = kani::any();
+    let pi = any_len(NP - 1);
+    let li = any_len(5);
+    let (e, _s) = crate::extm::mk_ext(crate::extm::Class::O(2));
+    let mut enc = Encapsulator::verif_from_parts(RecCrc::new(ret, pi, li), st.0, st.1, st.2, st.3);
+    let md = EncapMetadata::new(ptype, label);
+    let r = enc.encap_ext(&pdu_arr[..pdu_len], kani::any(), md, &mut buf_arr[..buf_len], vec![e]);
+    let wl = crate::c06::written_label(&st, &label);
+    let rec = enc.get_crc_calculator();
+    match &r {
+        Ok(EncapStatus::FragmentedPkt(_, ctx)) => {
+            assert!(rec.calls.get() == 1, "C12.sender_calls_calculator_once");
+            assert!(rec.pdu_len.get() == pdu_len, "C12.sender_crc_over_whole_pdu");
+            if pi < pdu_len {
+                assert!(rec.pdu_at.get() == Some(pdu_arr[pi]), "C12.sender_crc_pdu_bytes");
+            }
+            assert!(rec.pt.get() == ptype, "C12.sender_crc_protocol_type");
+            assert!(rec.tl.get() as usize == 2 + wl.len() + pdu_len, "C12.sender_crc_total_length");
+            assert!(rec.lab_len.get() == wl.len(), "C12.sender_crc_label_as_written");
+            if li < wl.len() {
+                assert!(rec.lab_at.get() == Some(label_byte(&wl, li)), "C12.sender_crc_label_bytes");
+            }
+            assert!(ctx.crc() == ret, "C12.sender_ctx_holds_calculator_result");
+            kani::cover!(wl.len() == 0 && label.len() == 6, "reuse_substituted_empty_label");
+            kani::cover!(wl.len() == 6, "label_6");
+        }
+        Ok(EncapStatus::CompletedPkt(_)) => {
+            assert!(rec.calls.get() == 0, "C12.no_crc_for_complete_packets");
+        }
+        Err(_) => {}
+    }
+    core::mem::forget(enc);
+}
